@@ -218,6 +218,103 @@ Section Nested.
     end.
 End Nested.
 
+(* ---------------- Dict(K, List(T)) ---------------- *)
+(* association list in insertion order, values are the inner lists *)
+Definition ndict := list (Z * list Z).
+Fixpoint nd_lookup (k : Z) (m : ndict) : option (list Z) :=
+  match m with [] => None | (k', v) :: r => if k =? k' then Some v else nd_lookup k r end.
+Fixpoint nd_set (k : Z) (v : list Z) (m : ndict) : ndict :=
+  match m with
+  | [] => [(k, v)]
+  | (k', v') :: r => if k =? k' then (k, v) :: r else (k', v') :: nd_set k v r
+  end.
+Definition nd_remove (k : Z) (m : ndict) : ndict := filter (fun p => negb (k =? fst p)) m.
+Definition nd_update (ps m : ndict) : ndict := fold_left (fun acc p => nd_set (fst p) (snd p) acc) ps m.
+
+Inductive ndop :=
+| NDSetItem (k : Z) (r : raw) | NDUpdate (ps : list (Z * raw)) | NDSetDefault (k : Z) (r : raw)
+| NDDelItem (k : Z) | NDPop (k : Z) | NDClear
+| NDAssign (ps : list (Z * raw))
+| NDInner (k : Z) (o : op).                      (* a mutator of the inner list obj.d[k] *)
+
+Record ndobs := mkND { nd_out : res unit; nd_after : ndict; nd_events : nat }.
+
+Section NDict.
+  Variable kv vld : Z -> option Z.
+  Variable imn : Z.
+  Variable imx : option Z.
+
+  Definition ndraise (e : exn) (m : ndict) : ndobs := mkND (Raise e) m 0.
+  Definition ndok (m : ndict) (n : nat) : ndobs := mkND (Ok tt) m n.
+
+  (* {key_validator(k): value_validator(v) for k, v in items} / the loop of update *)
+  Fixpoint nd_vld_pairs (ps : list (Z * raw)) : option ndict :=
+    match ps with
+    | [] => Some []
+    | (k, r) :: t =>
+        match kv k with
+        | None => None
+        | Some k' => match ivld vld imn imx r with
+                     | None => None
+                     | Some y => match nd_vld_pairs t with None => None | Some t' => Some ((k', y) :: t') end
+                     end
+        end
+    end.
+
+  Definition ndict_step (m : ndict) (o : ndop) : ndobs :=
+    match o with
+    | NDSetItem k r =>                               (* TraitDict.__setitem__, l.159-183 *)
+        match kv k with
+        | None => ndraise TraitError m
+        | Some k' => match ivld vld imn imx r with
+                     | None => ndraise TraitError m
+                     | Some y => ndok (nd_set k' y m) 1
+                     end
+        end
+    | NDUpdate ps =>                                 (* update with a dict argument, l.241-269 *)
+        match nd_vld_pairs ps with
+        | None => ndraise TraitError m
+        | Some qs => ndok (nd_update qs m) (if nonempty qs then 1 else 0)
+        end
+    | NDSetDefault k r =>                            (* setdefault, l.271-296: raw key containment first *)
+        match nd_lookup k m with
+        | Some _ => ndok m 0
+        | None =>
+            match kv k with
+            | None => ndraise TraitError m
+            | Some k' => match ivld vld imn imx r with
+                         | None => ndraise TraitError m
+                         | Some y => ndok (nd_set k' y m) 1
+                         end
+            end
+        end
+    | NDDelItem k | NDPop k =>                       (* __delitem__ l.185-201 / pop(key) l.298-325: raw key *)
+        match nd_lookup k m with
+        | Some _ => ndok (nd_remove k m) 1
+        | None => ndraise OtherError m
+        end
+    | NDClear => ndok [] (if nonempty m then 1 else 0)
+    | NDAssign ps =>                                 (* Dict.validate + TraitDictObject.__init__ *)
+        match nd_vld_pairs ps with
+        | None => ndraise TraitError m
+        | Some qs => ndok (nd_update qs []) 0
+        end
+    | NDInner k o =>
+        match nd_lookup k m with
+        | None => ndraise OtherError m
+        | Some inner =>
+            let ob := tlo_step vld imn imx inner o in
+            mkND (o_out ob) (nd_set k (o_after ob) m) (List.length (o_events ob))
+        end
+    end.
+
+  Fixpoint ndict_run (m : ndict) (ops : list ndop) : list (ndop * ndobs) :=
+    match ops with
+    | [] => []
+    | o :: r => let ob := ndict_step m o in (o, ob) :: ndict_run (nd_after ob) r
+    end.
+End NDict.
+
 (* ---------------- the mutating methods the op types enumerate ---------------- *)
 Local Open Scope string_scope.
 Definition op_method (o : op) : string :=
@@ -225,7 +322,7 @@ Definition op_method (o : op) : string :=
   | SetInt _ _ | SetSlice _ _ => "__setitem__" | DelInt _ | DelSlice _ => "__delitem__"
   | Append _ => "append" | Extend _ => "extend" | Iadd _ => "__iadd__" | Imul _ => "__imul__"
   | Insert _ _ => "insert" | Pop _ => "pop" | Remove _ => "remove" | Reverse => "reverse"
-  | Sort _ => "sort" | Clear => "clear"
+  | Sort _ _ => "sort" | Clear => "clear"
   end.
 Definition list_mutators : list string :=
   ["__delitem__"; "__iadd__"; "__imul__"; "__setitem__"; "append"; "clear"; "extend"; "insert"; "pop";
